@@ -6,7 +6,7 @@ from pathlib import Path
 
 from vlib import diffexec
 from vlib.core import sighash
-from vlib.siggen import SigGen, HAZARDS
+from vlib.siggen import SigGen
 
 PID = 'C34'
 LEVEL = 'exploration'
@@ -22,8 +22,9 @@ RULE = ('SigGen project: derived types with nested components, arrays of compone
         'members, type-bound procedures (renamed, generic, nested a%b%proc()); kernels k1..k4 in a call DAG of depth '
         '1-3 with derived-type, explicit/assumed-shape/assumed-size/lower-bound-0 array dummies; actuals are whole '
         'arrays, components, sections, scalar elements (sequence association), duplicated read-only actuals. One '
-        'transformation mode per case (dt, dta, tb, tbd, tbdt, seq, shape, dup, dupr, dupd). 1 case in 6 carries one '
-        'hazard construct. Non-trivial = the transformation changed the generated Fortran of at least one file and '
+        'transformation mode per case (dt, dta = all_derived_types, tb, tbd = duplicate_typebound_kernels, tbdt = tb then '
+        'dt, seq, shape = analysis + explicit shapes, dup, dupr = rename_common, dupd = driver only). At most 1 case in 6 '
+        'carries one hazard construct (isolated kernel hzk or a gated call form) with a known defect mechanism. Non-trivial = the transformation changed the generated Fortran of at least one file and '
         'both programs built and ran on all inputs; distinct = hash of sources + mode.')
 CASES = {'quick': 96, 'thorough': 1440}
 MIN_NONTRIVIAL = {'quick': 40, 'thorough': 600}
@@ -36,23 +37,27 @@ ASSUMPTIONS = ['gfortran 12 -O0 with run-time checks is the reference semantics'
                'generated programs are well-defined by construction (original must run clean, else discarded)',
                'real outputs compared to relative 1e-11',
                'RemoveDuplicateArgs: all calls of a routine repeat the same duplicate pattern (documented restriction)',
-               'type-bound calls are resolved before DerivedTypeArgumentsTransformation (as in the shipped pipelines), '
-               'except in the dt_tb_unresolved slice']
-BUDGET_S = {'quick': 400, 'thorough': 3000}
+               'type-bound calls are resolved (TypeboundProcedureCallTransformation) before '
+               'DerivedTypeArgumentsTransformation is applied, as in the shipped pipelines',
+               'every routine of the project is reachable from the driver (a routine outside the call tree that calls a '
+               'rewritten routine is an inconsistency of the input project, not of the transformation)']
+BUDGET_S = {'quick': 3600, 'thorough': 14400}   # generous: only matters on an overloaded machine
 CASE_TIMEOUT_S = 1800
+WATCHDOG_S = {'quick': 7200, 'thorough': 28800}   # generous: only matters on an overloaded machine
 
 TMODES = ['dt', 'dt', 'dta', 'tb', 'tbd', 'tbdt', 'tbdt', 'seq', 'seq', 'shape', 'shape', 'dup', 'dupr', 'dupd']
 GENMODE = {'dt': 'dt', 'dta': 'dt', 'tb': 'tb', 'tbd': 'tb', 'tbdt': 'tb', 'seq': 'seq', 'shape': 'shape',
            'dup': 'dup', 'dupr': 'dup', 'dupd': 'dup'}
 HAZ_FOR = {
-    'dt': ['dt_whole_and_member', 'dt_alloc_lbound', 'dt_allocated_inq', 'dt_whole_passed_on'],
-    'dta': ['dt_whole_and_member', 'dt_alloc_lbound', 'dt_whole_passed_on'],
+    'dt': ['dt_whole_and_member', 'dt_alloc_lbound', 'dt_allocated_inq', 'dt_whole_passed_on', 'dt_func_kw'],
+    'dta': ['dt_whole_and_member', 'dt_alloc_lbound', 'dt_whole_passed_on', 'dt_func_kw'],
     'tb': ['tb_generic', 'tb_nested_function'], 'tbd': ['tb_generic'],
     'tbdt': ['tb_nested_function', 'tb_generic'],
     'seq': ['seq_span', 'seq_kw', 'seq_offset2d'],
     'shape': ['shape_lbound', 'shape_section', 'shape_two_callers', 'shape_member_dim', 'shape_star_deferred',
               'shape_star_literal_index'],
-    'dup': ['dup_spec_use', 'dup_diff_bounds', 'dup_kw'], 'dupr': ['dup_spec_use', 'dup_kw'], 'dupd': ['dup_kw'],
+    'dup': ['dup_spec_use', 'dup_diff_bounds', 'dup_kw', 'dup_two_callers'], 'dupr': ['dup_spec_use', 'dup_kw'],
+    'dupd': ['dup_kw'],
 }
 
 
@@ -97,6 +102,12 @@ def case_flags(rng, idx, force=None):
         f['tb_generic'] = True
     if hz == 'dup_kw':
         f['kw_calls'] = True
+    if hz == 'dt_func_kw':
+        f['func_kernel'] = f['kw_calls'] = True
+    if tmode == 'tbdt' and hz != 'tb_nested_function':
+        # type-bound function references are not (reliably) Scheduler dependencies of the caller: the tb + dt pipeline
+        # leaves their call sites unexpanded (known finding, slice tb_nested_function)
+        f['tb_function'] = False
     if hz in ('dt_whole_and_member',):
         f['nest'] = max(f['nest'], 2)
     return tmode, f
@@ -254,20 +265,24 @@ def _norm_compile_error(detail):
 
 
 def classify(tmode, hazard, symptom, detail):
-    """mechanism key: hazard slice cases are keyed by their hazard + symptom, others by mode + symptom"""
+    """
+    Mechanism key.  Cases of the hazard slice carry exactly one hazard construct: they are keyed by the construct and
+    the class of the symptom (the compiler's first message varies with the surrounding program).  All other cases are
+    keyed by transformation mode, symptom and the normalised first compiler / run-time message.
+    """
     if symptom == 'compile':
-        tail = 'compile:' + _norm_compile_error(detail)
+        cls, tail = 'compile', 'compile:' + _norm_compile_error(detail)
     elif symptom == 'differ':
         d = detail or ''
         if 'exit status' in d or 'run-time check' in d:
             m = re.search(r'(Fortran runtime error: [A-Za-z ]{0,40}|AddressSanitizer: [a-z-]+|SIGSEGV|SIGFPE)', d)
-            tail = 'runtime:' + (re.sub(r'[^A-Za-z]+', '-', m.group(1)).strip('-') if m else 'abnormal-exit')
+            cls, tail = 'runtime', 'runtime:' + (re.sub(r'[^A-Za-z]+', '-', m.group(1)).strip('-') if m else 'abnormal-exit')
         else:
-            tail = 'output-differs'
+            cls = tail = 'output-differs'
     else:
-        tail = symptom
+        cls, tail = symptom.split(':')[0], symptom
     if hazard:
-        return f'sig:{hazard}:{tmode}:{tail}'
+        return f'sig:{hazard}:{cls}'
     return f'sig:{tmode}:{tail}'
 
 
